@@ -180,7 +180,7 @@ def playback(ws, package, name, timeout_s):
 def evaluate(group_names, prop, tier, res, timeout_s=None, only_quick=None):
     groups_all = load_groups()
     groups = [groups_all[g] for g in group_names]
-    timeout_s = timeout_s or (1800 if tier == 'thorough' else 600)
+    timeout_s = timeout_s or (2400 if tier == 'thorough' else 900)
     ws, err = prepare_ws(groups)
     if ws is None:
         res.undecide('kani: ' + err)
